@@ -39,7 +39,10 @@ func (quiet) Errorf(format string, args ...interface{})   {}
 func (quiet) Fatal(args ...interface{})                   {}
 func (quiet) Fatalln(args ...interface{})                 {}
 func (quiet) Fatalf(format string, args ...interface{})   {}
-func (quiet) V(l int) bool                                { return false }
+
+// V answers from the run's verbosity (a fault dimension: code under
+// "if log.V(...)" runs only at high verbosity); output is discarded either way.
+func (quiet) V(l int) bool { return simkit.VerboseLogs(l) }
 
 func TestMain(m *testing.M) {
 	// The logger is replaced by a no-op: no pointer values in output, and the
